@@ -178,6 +178,26 @@ def gen_rsched(rng, big=False):
     return pat
 
 
+def gen_reset_case(rng, n):
+    """a client whose connection is RESET after its directory name (and possibly some data) - no SEND_END -
+    followed by an ordinary client that the server accepts on the SAME descriptor number; optionally a third,
+    ordinary client connected all the time"""
+    names = rng.sample([b"aborted.data", b"b.data", b"uftrace.data", b"x", b"n1", b"n2"], 3)
+    c0 = gen_client(rng, 0, names[0])
+    cut = rng.choice([0, 0, 1, 2, len(c0["ops"])])
+    c0["ops"] = [op for op in c0["ops"][:cut] if op[0] != "sleep"]
+    c0["abort"] = True
+    sent = set(m[1] for m in body_msgs(c0) if m[0] == "meta") | ({b"info"} if ("info",) in c0["ops"] else set())
+    c0["files"] = {n: v for n, v in c0["files"].items() if n in sent}      # only what it sends exists locally
+    c1 = gen_client(rng, 1, names[1])
+    c1["after"] = 0
+    phase = [c0, c1]
+    if rng.random() < 0.4:
+        phase.append(gen_client(rng, 2, names[2]))
+    return {"n": n, "big": False, "phases": [phase], "rsched": gen_rsched(rng),
+            "fsched": rng.choice([[NOCAP * 1000], [1, NOCAP * 1000]])}
+
+
 def gen_case(rng, n, big=False, reuse=False):
     """a case: phases (harness runs over the same server directory), each with 1-4 concurrent clients"""
     k = 1 if big else rng.choice([1, 1, 2, 2, 3, 4])
@@ -207,7 +227,7 @@ def write_casefile(path, srv, clients, rsched, fsched, root):
         for n, data in c["files"].items():
             with open(os.path.join(loc, n.decode()), "wb") as f:
                 f.write(data)
-        L.append("client %s %s" % (loc, cap))
+        L.append("client %s %s" % (loc, cap) + (" after %d" % c["after"] if "after" in c else ""))
         L.append("wsched %s" % " ".join(map(str, c["wsched"])))
         L.append("lsched %s" % " ".join(map(str, c["lsched"])))
         if "raw" in c:
@@ -228,7 +248,9 @@ def write_casefile(path, srv, clients, rsched, fsched, root):
                 L.append("op sleep %d" % op[1])
             else:
                 L.append("op %s" % op[0])
-        if not c.get("no_end"):
+        if c.get("abort"):
+            L.append("op abort")
+        elif not c.get("no_end"):
             L.append("op end")
     with open(path, "w") as f:
         f.write("\n".join(L) + "\n")
@@ -310,9 +332,10 @@ def expand(sched, n):
 
 
 def client_term(c, rsched, sock):
-    return ("{| cc_sock := %d; cc_dir := %s; cc_where := %s; cc_body := [%s]; cc_wsched := [%s]%%Z; "
+    return ("{| cc_sock := %d; cc_dir := %s; cc_where := %s; cc_body := [%s]; cc_abort := %s; cc_wsched := [%s]%%Z; "
             "cc_rsched := [%s]%%nat; cc_wire := %s; cc_local := %s; cc_recv := %s |}" % (
                 sock, cb(c["dir"]), cb(c["where"]), "; ".join(cmsg(m) for m in body_msgs(c)),
+                coq.coq_bool(bool(c.get("abort"))),
                 "; ".join(coq.zlit(v) for v in expand(c["wsched"], c["wcalls"])),
                 "; ".join(str(v) for v in rsched), cb(c["wire"]), cdir(c["local"] or {}), codir(c["recv"])))
 
@@ -331,9 +354,16 @@ def evaluate_small(ctx, cases, name):
     for case in cases:
         cl, sock = [], 3
         for phase in case["phases"]:
+            socks = {}
             for c in phase:
-                cl.append(client_term(c, case["rsched"], sock))
-                sock += 1
+                if "after" in c:          # accepted on the descriptor number of the reset connection
+                    socks[c["idx"]] = socks[c["after"]]
+                else:
+                    socks[c["idx"]] = sock
+                    sock += 1
+            # the model serves the clients one after the other: a reset connection before its successor
+            for c in sorted(phase, key=lambda c: (socks[c["idx"]], "after" in c)):
+                cl.append(client_term(c, case["rsched"], socks[c["idx"]]))
         terms.append("[" + ";\n  ".join(cl) + "]")
     defs = "Definition cases : list (list client_case) := [\n%s\n].\n" % ";\n".join(terms)
     defs = BL.text() + defs
@@ -373,7 +403,7 @@ def jcase(case):
              "files": {n.hex(): v.hex() for n, v in c["files"].items()},
              "ops": [[(x.hex() if isinstance(x, (bytes, bytearray)) else x) for x in op] for op in c["ops"]],
              "idx": c["idx"]}
-        for k in ("raw", "no_end"):
+        for k in ("raw", "no_end", "abort", "after"):
             if k in c:
                 o[k] = [r.hex() for r in c[k]] if k == "raw" else c[k]
         return o
@@ -397,8 +427,9 @@ def unjcase(j):
              "files": {bytes.fromhex(n): bytes.fromhex(v) for n, v in o["files"].items()}, "ops": ops}
         if "raw" in o:
             c["raw"] = [bytes.fromhex(r) for r in o["raw"]]
-        if "no_end" in o:
-            c["no_end"] = o["no_end"]
+        for k in ("no_end", "abort", "after"):
+            if k in o:
+                c[k] = o[k]
         return c
     return {"n": 0, "big": j["big"], "rsched": j["rsched"], "fsched": j["fsched"],
             "phases": [[uc(c) for c in ph] for ph in j["phases"]]}
@@ -444,6 +475,12 @@ def case_tags(case):
                 t.append("tasks>=2")
     if len(case["phases"]) > 1:
         t.append("dirname-reused-sequentially")
+    for ph in case["phases"]:
+        for c in ph:
+            if c.get("abort"):
+                t.append("connection-reset" + (":after-dirname-only" if not c["ops"] else ""))
+            if "after" in c:
+                t.append("descriptor-reused-after-reset")
     return sorted(set(t))
 
 
@@ -768,6 +805,74 @@ def e2e_round(ctx, objdir, progs, rnd, spec):
     return out
 
 
+def e2e_reset(ctx, objdir, progs, spec):
+    """a client that sends its directory name and some data and is then RESET (SO_LINGER 0: RST instead of
+    FIN, no SEND_END), followed by an ordinary `uftrace record --host`: `uftrace recv` accepts the new
+    connection on the descriptor number it has just closed.  The ordinary client's directory must equal the
+    local recording and the aborted client's directory must hold (a prefix of) its own data only."""
+    uft = os.path.join(objdir, "uftrace")
+    root = os.path.join(ctx.scratch, "e2e-reset")
+    shutil.rmtree(root, ignore_errors=True)
+    os.makedirs(root)
+    adir, tid, payload, task = b"aborted.data", spec["tid"], bytes.fromhex(spec["payload"]), b"ABORTED-TASK\n"
+    own = {b"%d.dat" % tid: payload, b"task.txt": task}
+    prog = [progs["single"], str(spec["n"])]
+    rc, o, e = sh(record_cmd(uft, objdir, [], "local.data", prog), cwd=root, timeout=60)
+    if rc != 0:
+        ctx.broken("e2e-reset: local uftrace record failed rc=%d: %s" % (rc, (o + e)[-300:]))
+    srv, port = start_recv(uft, os.path.join(root, "srv"))
+    relay = Relay(spec["relay_seed"], port)
+    try:
+        c = socket.create_connection(("127.0.0.1", port))
+        msgs = hdr(101, len(adir)) + adir + hdr(102, 4 + len(payload)) + be32(tid) + payload
+        if spec.get("with_meta"):
+            msgs += hdr(106, 4 + 8 + len(task)) + be32(8) + b"task.txt" + task
+        else:
+            own.pop(b"task.txt")
+        c.sendall(msgs)
+        import fcntl
+        for _ in range(200):          # until the server's kernel has everything ...
+            if struct.unpack("i", fcntl.ioctl(c.fileno(), 0x5411, b"\0\0\0\0"))[0] == 0:      # SIOCOUTQ
+                break
+            time.sleep(0.01)
+        time.sleep(0.3)               # ... and `uftrace recv` has handled it
+        c.setsockopt(socket.SOL_SOCKET, socket.SO_LINGER, struct.pack("ii", 1, 0))
+        c.close()                     # RST
+        time.sleep(0.3)
+        rc2, o2, e2 = sh(record_cmd(uft, objdir, ["--host", "127.0.0.1", "--port", str(relay.port)], "net.data", prog),
+                         cwd=root, timeout=60)
+        time.sleep(0.3)
+    finally:
+        relay.close()
+        srvout = stop_proc(srv)
+    loc = norm_dir(uft, objdir, os.path.join(root, "local.data"))
+    net = norm_dir(uft, objdir, os.path.join(root, "srv", "net.data"))
+    got = snap(os.path.join(root, "srv", adir.decode()))
+    meta = {"spec": spec, "record_rc": rc2, "record_out": (o2 + e2)[-300:], "recv_output": srvout[-300:],
+            "net_files": sorted(x.decode() for x in (net or {})) if net is not None else None,
+            "aborted_dir_files": {n.decode(): len(v) for n, v in (got or {}).items()} if got is not None else None}
+    shutil.rmtree(root, ignore_errors=True)
+    ctx.case(key=("e2e-reset", json.dumps(spec, sort_keys=True)), tags=["e2e:connection-reset(RST)", "e2e:descriptor-reused-after-reset"],
+             sample=None, size=len(payload))
+    bad = evaluate_dig(ctx, [(digest_dir(loc) or {}, digest_dir(net))], "e2e_reset")
+    fresh_blobs()
+    # (files that are not the aborted client's fail the check by their name: their content is not shipped to Coq)
+    small = {n: (v[:len(own[n]) + 1] if n in own else b"") for n, v in (got or {}).items()}
+    term = "prefix_dir %s %s" % (cdir(small), cdir(own))
+    res = coq.run_cases(ctx, "e2e_reset_own", PRE, BL.text(), [("own_only", term)])
+    if bad:
+        ctx.violation("C16 violated end-to-end: after another client's connection was reset, the directory stored by `uftrace recv` "
+                      "for an ordinary `record --host` differs from the local recording (received files: %s)" % meta["net_files"],
+                      {"mode": "e2e-reset", "case": meta}, True)
+    if res is not None and "true" not in res["own_only"]:
+        ctx.violation("C16 violated end-to-end: the directory of a client whose connection was reset holds data that is not its own: %s"
+                      % meta["aborted_dir_files"], {"mode": "e2e-reset", "case": meta}, True)
+    if rc2 != 0:
+        ctx.violation("C16 e2e: `uftrace record --host` failed (rc=%s) after another client's connection was reset" % rc2,
+                      {"mode": "e2e-reset", "case": meta}, True)
+    return meta
+
+
 def e2e_verdict(ctx, results):
     pairs = [(a, b) for a, b, _ in results]
     bad = evaluate_dig(ctx, pairs, "e2e")
@@ -795,6 +900,10 @@ def e2e(ctx, objdir):
         spec = {"relay_seed": ctx.rng.randrange(1 << 30), "runs": runs, "stagger": ctx.rng.choice([0.0, 0.0, 0.02])}
         results += e2e_round(ctx, objdir, progs, rnd, spec)
     e2e_verdict(ctx, results)
+    for _ in range(ctx.n(1, 4)):
+        e2e_reset(ctx, objdir, progs, {"relay_seed": ctx.rng.randrange(1 << 30), "n": ctx.rng.choice([1, 3, 50]),
+                                        "tid": ctx.rng.choice([7, 4242]), "with_meta": ctx.rng.random() < 0.5,
+                                        "payload": rbytes(ctx.rng, ctx.rng.choice([0, 16, 48])).hex()})
 
 
 # ---------------------------------------------------------------- witnesses of the two defects found
@@ -886,7 +995,8 @@ def common_meta(ctx):
                 "distinct by (ops, files, schedules); non-trivial = at least one data buffer or metadata file is "
                 "sent.  big cases: payloads of 64 KiB .. 1 MiB (digests).  raw cases: fixed table of malformed "
                 "streams x random read schedules.  e2e: uftrace recv + 1-4 concurrent `record --host` through a "
-                "re-segmenting TCP relay vs local recordings")
+                "re-segmenting TCP relay vs local recordings; every 10th in-process case and one e2e scenario: a client whose "
+                "connection is reset after its directory name / some data, followed by a client on the re-used descriptor")
     ctx.trusted = [
         "Coq 8.16.1 kernel incl. vm_compute; no axioms (Print Assumptions: closed under the global context)",
         "hand-written model coq/theories/C16/Model.v of utils/utils.c read_all/write_all/writev_all, cmds/recv.c "
@@ -903,8 +1013,10 @@ def common_meta(ctx):
         "concurrently connected clients use directory names that are pairwise different (also from each other's "
         "NAME.old) - otherwise their data is mixed: defect witness " + KEY_SAMEDIR,
         "every client ends with SEND_END; a client that disconnects inside or between messages makes `uftrace recv` "
-        "exit (modelled: the server dies; proved: C16_read_all_short_stream); connections are not reset (the "
-        "EPOLLERR/EPOLLHUP branch of handle_client_sock, which drops the client without reading, is not modelled)",
+        "exit (modelled: the server dies; proved: C16_read_all_short_stream); a connection that is RESET "
+        "(EPOLLERR/EPOLLHUP branch of handle_client_sock) is modelled as removal of the client entry (WHup) and "
+        "exercised in-process (peer close of the socketpair, successor accepted on the same descriptor number) and "
+        "end-to-end (SO_LINGER 0 / RST); the in-process reset happens after the server has read all that was sent",
         "message length fields < 2^31 (receiver passes them as int); file and directory names without NUL and '/', "
         "shorter than PATH_MAX; the receiver's directory contains only directories made by recv itself",
         "default.opts is not part of the comparison (the receiver creates its own, the property lists trace, task, "
@@ -978,7 +1090,7 @@ def run(ctx):
     rng = ctx.rng
     # 1. small in-process cases, full model comparison
     nsmall = ctx.n(150, 4000)
-    cases = [gen_case(rng, i, reuse=(i % 9 == 4)) for i in range(nsmall)]
+    cases = [gen_reset_case(rng, i) if i % 10 == 7 else gen_case(rng, i, reuse=(i % 9 == 4)) for i in range(nsmall)]
     per = 200
     for off in range(0, len(cases), per):
         run_small(ctx, exe, cases[off:off + per], "small%d" % (off // per))
@@ -1031,6 +1143,10 @@ def replay(ctx, obj):
         res = e2e_round(ctx, objdir, {"single": ps, "mt": pm}, 0, obj["case"]["spec"])
         e2e_verdict(ctx, res)
         ctx.log("replayed e2e round:", json.dumps([m for _, _, m in res])[:1500])
+    elif mode == "e2e-reset":
+        ps, pm = build_progs(ctx)
+        m = e2e_reset(ctx, objdir, {"single": ps, "mt": pm}, obj["case"]["spec"])
+        ctx.log("replayed e2e reset scenario:", json.dumps(m)[:1200])
     elif obj.get("key") in (KEY_RACE, KEY_SAMEDIR):
         witnesses(ctx, objdir, exe)
     else:
